@@ -15,6 +15,7 @@ import (
 	"github.com/tink-crypto/tink-go/v2/mac/hmac"
 	macsubtle "github.com/tink-crypto/tink-go/v2/mac/subtle"
 	"github.com/tink-crypto/tink-go/v2/tink"
+	"github.com/tink-crypto/tink-go/v2/verifharness/internal/aeadcase"
 	"github.com/tink-crypto/tink-go/v2/verifharness/internal/detrand"
 	"github.com/tink-crypto/tink-go/v2/verifharness/internal/evid"
 	"github.com/tink-crypto/tink-go/v2/verifharness/internal/gen"
@@ -95,7 +96,11 @@ func checkMAC(t *rapid.T, c *macCase, msg []byte, draw bool) (candidates int) {
 	// equivalence: VerifyMAC(cand, m') == nil  <=>  cand == expected(m')
 	try := func(kind string, cand, m []byte) {
 		candidates++
-		should := bytes.Equal(cand, c.expected(m))
+		exp := want
+		if !(len(m) == len(msg) && (len(m) == 0 || &m[0] == &msg[0])) {
+			exp = c.expected(m) // (the reference value for msg itself is computed once: long messages)
+		}
+		should := bytes.Equal(cand, exp)
 		err := c.p.VerifyMAC(cand, m)
 		if (err == nil) != should {
 			t.Fatalf("%v: candidate kind=%s tag=%x msg=%s: VerifyMAC err=%v but reference equality=%v", c, kind, cand, gen.Hex(m), err, should)
@@ -147,6 +152,71 @@ func checkMAC(t *rapid.T, c *macCase, msg []byte, draw bool) (candidates int) {
 		// a re-computed tag for the mutated message is on the accept side
 		try("retag", c.expected(mm.Out), mm.Out)
 	}
+	candidates += reusedMessageBuffer(t, c, msg, got1, want)
+	return candidates
+}
+
+func xored(b []byte, v byte) []byte {
+	out := make([]byte, len(b))
+	for i := range b {
+		out[i] = b[i] ^ v
+	}
+	return out
+}
+
+// reusedMessageBuffer: the property is stated for messages as byte strings. A caller that keeps one
+// message buffer and refills it between calls on the same primitive object must get the tag of the
+// bytes the buffer holds at the time of the call, and a tag it was handed earlier must still be the
+// tag of the message it was computed for after later calls with other messages.
+//
+//	buf = msg^0x11 (a message the object has not met): t1 = ComputeMAC(buf) == expected(msg^0x11)
+//	buf ^= 0x33 in place (now msg^0x22):               t2 = ComputeMAC(buf) == expected(msg^0x22)
+//	t1 (and the tag of msg computed at the start) still hold their values;
+//	VerifyMAC(t1, buf) fails now (modified message), VerifyMAC(tagbuf, buf) follows the buffers:
+//	tagbuf = t1 -> overwritten in place with expected(msg^0x22) -> accepted.
+//
+// For the empty message the second message is a one-byte message in a new slice.
+func reusedMessageBuffer(t *rapid.T, c *macCase, msg, tagOfMsg, want []byte) (candidates int) {
+	first := xored(msg, 0x11)
+	if len(msg) == 0 {
+		first = []byte{0x11}
+	}
+	buf := first
+	wantA := c.expected(buf)
+	t1, err := c.p.ComputeMAC(buf)
+	if err != nil || !bytes.Equal(t1, wantA) {
+		t.Fatalf("%v: ComputeMAC(%s) = %x (%v), reference says %x", c, gen.Hex(buf), t1, err, wantA)
+	}
+	msgA := bytes.Clone(buf)
+	for i := range buf {
+		buf[i] ^= 0x33
+	}
+	wantB := c.expected(buf)
+	t2, err := c.p.ComputeMAC(buf)
+	if err != nil || !bytes.Equal(t2, wantB) {
+		t.Fatalf("%v: the caller's message buffer first held %s (ComputeMAC correct), then - every byte ^0x33 in place - %s: the second ComputeMAC on the same object = %x (%v), reference says %x", c, gen.Hex(msgA), gen.Hex(buf), t2, err, wantB)
+	}
+	if !bytes.Equal(t1, wantA) {
+		t.Fatalf("%v: the tag returned for %s was %x; after ComputeMAC of another message (%s) on the same object the returned slice holds %x", c, gen.Hex(msgA), wantA, gen.Hex(buf), t1)
+	}
+	if !bytes.Equal(tagOfMsg, want) {
+		t.Fatalf("%v: the tag returned for %s was %x; after later calls on the same object the returned slice holds %x", c, gen.Hex(msg), want, tagOfMsg)
+	}
+	// verification through reused buffers (decided by reference equality as everywhere else)
+	tagbuf := bytes.Clone(t1)
+	for _, step := range []struct {
+		kind string
+		tag  []byte
+	}{{"stale-tag-after-refill", tagbuf}, {"refilled-tag", wantB}} {
+		copy(tagbuf, step.tag)
+		candidates++
+		should := bytes.Equal(tagbuf, wantB)
+		err := c.p.VerifyMAC(tagbuf, buf)
+		if (err == nil) != should {
+			t.Fatalf("%v: candidate kind=%s tag=%x msg=%s (message buffer refilled in place, was %s): VerifyMAC err=%v but reference equality=%v", c, step.kind, tagbuf, gen.Hex(buf), gen.Hex(msgA), err, should)
+		}
+	}
+	evid.Add("reused_buffer_stages", 1)
 	return candidates
 }
 
@@ -291,6 +361,9 @@ func TestCMAC(t *testing.T) {
 		}
 		id := gen.KeyID(rt, "id")
 		msg := gen.Bytes(rt, "msg", 1024)
+		if n, big := aeadcase.BigLen(rt, "msg", 400); big {
+			msg = gen.BytesN(rt, "bigmsg", n) // size class: page / buffer boundaries and 1 MiB
+		}
 		p, id, err, stage := buildCMAC(keyBytes, tagSize, variant, id, route)
 		if err != nil {
 			if kl == 16 && route != "subtle" && stage == "ctor" {
@@ -304,6 +377,9 @@ func TestCMAC(t *testing.T) {
 		n := checkMAC(rt, c, msg, true)
 		evid.Add("verify_candidates", int64(n))
 		class := fmt.Sprintf("CMAC%d/%s/%s/msg%%16=%s", kl*8, variant, route, blockRel(len(msg), 16))
+		if len(msg) >= 4096 {
+			class += "/msg>=4096"
+		}
 		evid.Case(class, len(msg) >= 1, evid.NewH().S("CMAC").B(keyBytes).I(int64(tagSize)).S(variant).I(int64(id)).S(route).B(msg).Sum(), func() any {
 			return map[string]any{"case": c.String(), "msg": gen.Hex(msg), "candidates": n}
 		})
